@@ -576,11 +576,11 @@ fn decoder_init(rep: &mut Report, rng: &mut Rng) {
 }
 
 pub fn run(ctx: &Ctx, rep: &mut Report) {
-    let n_c = ctx.n(2000, 100_000);
-    let n_det = ctx.n(400, 10_000);
-    let n_capi = ctx.n(400, 10_000);
-    let n_inf = ctx.n(2000, 100_000);
-    let n_dec = ctx.n(1500, 60_000);
+    let n_c = ctx.n(10_000, 200_000);
+    let n_det = ctx.n(1500, 20_000);
+    let n_capi = ctx.n(1500, 20_000);
+    let n_inf = ctx.n(10_000, 200_000);
+    let n_dec = ctx.n(8000, 120_000);
     for k in ctx.cases(n_c + n_det + n_capi + n_inf + n_dec) {
         rep.cur_case = k;
         crate::ctx::begin_case(k);
